@@ -56,7 +56,7 @@ def spec_terms(low, bn, n, form):
     return 'false', None, None, None
 
 
-def decode_obligations(ck, r, tag, n, form, bytevars, failures):
+def decode_obligations(ck, r, tag, n, form, bytevars, failures, rt_only=False):
     rets = [p for p in r.paths if p['end'] == 'return']
     bad = [p for p in r.paths if p['end'] != 'return']
     ok = ck.ground(tag + '.nopanic', 'every path returns: no panic for any content', not bad, str([(p['end'], p.get('panic') or p.get('err')) for p in bad][:2]))
@@ -72,21 +72,24 @@ def decode_obligations(ck, r, tag, n, form, bytevars, failures):
         o = p['obs']
         pt = '%s.path%d' % (tag, p['id'])
         accepted = bool(o['err'].get('nil'))
-        okf = ck.ground(pt + '.frame', 'input bytes are never written, no state outside the receiver is touched', not p['writes'], str(p['writes'][:1]))
-        if not okf:
-            failures.append(pt + '.frame')
+        okf = True
+        if not rt_only:
+            okf = ck.ground(pt + '.frame', 'input bytes are never written, no state outside the receiver is touched', not p['writes'], str(p['writes'][:1]))
+            if not okf:
+                failures.append(pt + '.frame')
         if accepted:
             got = coords(low, o, 'E')
             if acc == 'false':
                 goals.append((pt + '.reject', 'no input of this length/form is accepted', asserts(p['pc'])))
                 continue
-            goals.append((pt + '.accept-only-if', 'accepted only if the input is a canonical SEC1 encoding of a curve point', asserts(p['pc']) + '\n(assert (not %s))' % acc))
+            if not rt_only:
+                goals.append((pt + '.accept-only-if', 'accepted only if the input is a canonical SEC1 encoding of a curve point', asserts(p['pc']) + '\n(assert (not %s))' % acc))
             goals.append((pt + '.point', 'accepted: receiver = (x : root with the prefix parity : 1) resp. (x : y : 1) resp. the identity',
                           asserts(p['pc']) + '\n(assert (not (and (= %s %s) (= %s %s) (= %s %s))))' % (got[0], X, got[1], Y, got[2], Z)))
         else:
             lab = o['err'].get('label', '')
             e_ok = all(o['E.' + c]['f'] == o['E0.' + c]['f'] for c in 'xyz')
-            if not ck.ground(pt + '.unchanged', 'rejected: error returned and receiver left unchanged', e_ok and (lab == ERR or lab.startswith('fmt.Errorf')), lab) or not okf:
+            if not rt_only and (not ck.ground(pt + '.unchanged', 'rejected: error returned and receiver left unchanged', e_ok and (lab == ERR or lab.startswith('fmt.Errorf')), lab) or not okf):
                 failures.append(pt)
             if acc != 'false':
                 goals.append((pt + '.reject-only-if', 'rejected only if the input is not a canonical encoding', asserts(p['pc']) + '\n(assert %s)' % acc))
@@ -182,6 +185,21 @@ def run(tier, seed, ck=None):
     if failures and not ck.violations:
         battery(ck, failures)
     return ck.finish() if own else None
+
+
+def roundtrip(tier, seed, ck):
+    """the part of the decoder specification that Decode(Encode(P)) = P relies on (used by C04): Decode, on the three lengths an
+    encoder can produce, never panics, does not reject a canonical encoding, and an accepted input gives exactly that point"""
+    jobs = [{'id': 'rt_dec%d' % n, 'harness': 'vh_el_decode', 'args': [n, 0], 'summaries': SUMM} for n in (1, 33, 65)]
+    runs = ck.absorb(core.symx_parallel(HARNESS, jobs, chunks=3))
+    ck.extra.setdefault('_runs', []).extend(runs)
+    from props import C12
+    C12.run(tier, seed, ck, which=['FromBytesWithReduce', 'Square', 'Multiply', 'Add', 'SqrtRatio', 'Sgn0', 'Negate', 'CMove', 'One', 'Set', 'Equals'])
+    failures = []
+    for r in runs:
+        n = int(r.id[6:])
+        decode_obligations(ck, r, 'C03rt.Decode%d' % n, n, 'any', ['in_%d' % i for i in range(n)], failures, rt_only=True)
+    return failures
 
 
 def battery(ck, failures):
